@@ -27,6 +27,7 @@ import (
 	"regexp"
 	"sort"
 	"strings"
+	"unicode/utf8"
 
 	"fortio.org/log"
 	"grol.io/grol/extensions"
@@ -189,7 +190,13 @@ func (s *sanSweep) one(hasArg bool, name string, mode int) {
 		// --- direct oracle: the property on the implementation alone
 		if acc && !f.unrestricted {
 			if !plainName(got) {
-				c.Fail("sanitize-accepts-nonplain", desc(), fmt.Sprintf("restricted IO accepted %q as file %q", name, got))
+				sig := "sanitize-accepts-nonplain"
+				for i := 0; i < len(got); i++ {
+					if got[i] >= 0x80 { // accepted name must be pure ASCII letters/digits/underscore + .gr
+						sig = "sanitize-accepts-non-ascii-byte"
+					}
+				}
+				c.Fail(sig, desc(), fmt.Sprintf("restricted IO accepted %q as file %q", name, got))
 			}
 			if f.emptyOnly && got != ext {
 				c.Fail("sanitize-emptyonly-accepts-other", desc(), fmt.Sprintf("empty-only accepted %q as file %q", name, got))
@@ -248,6 +255,40 @@ func (s *sanSweep) flush() {
 	for _, b := range s.batch {
 		b.flush()
 	}
+}
+
+// Valid UTF-8 encodings of 2, 3 and 4 bytes for every value of the LOW byte of the code point (a check that decodes
+// runes and then looks at byte(r) sees exactly that low byte): 7 code-point pages x 256 low bytes.
+func utf8Runes() []string {
+	var out []string
+	for _, page := range []int{0x0100, 0x0500, 0x0800, 0x4E00, 0xFF00, 0x10000, 0x1F600, 0x10FF00} {
+		for low := 0; low < 256; low++ {
+			r := rune(page | low)
+			if !utf8.ValidRune(r) || utf8.RuneLen(r) < 2 {
+				continue
+			}
+			out = append(out, string(r))
+		}
+	}
+	return out
+}
+
+// multi-byte symbols for a small exhaustive sweep: runes whose low code-point byte is a letter ('a' 2/3/4 bytes), a digit,
+// '_', '.', '/', NUL, next to plain ASCII symbols
+var utf8Tokens = []string{"g", ".", "/", "\u0161", "\u4e61", "\U00010061", "\u0130", "\u015f", "\u012e", "\u012f", "\u0100", "\u00e9"}
+
+func enumerateTokens(toks []string, l int, f func(string)) {
+	var rec func(i int, cur string)
+	rec = func(i int, cur string) {
+		if i == l {
+			f(cur)
+			return
+		}
+		for _, t := range toks {
+			rec(i+1, cur+t)
+		}
+	}
+	rec(0, "")
 }
 
 // every string of length exactly l over the alphabet
@@ -682,7 +723,9 @@ func (fr *fsRunner) safe(r fsReq) bool {
 		return true
 	}
 	if !fr.conf.UnrestrictedIOs {
-		return plainName(got)
+		// a wrongly accepted name is still issued (so that its file-system effect is observed) as long as it can only
+		// name an entry of the scratch working directory
+		return plainName(got) || (!strings.ContainsAny(got, "/\x00") && got != "." && got != ".." && len(got) <= 255)
 	}
 	if filepath.IsAbs(got) {
 		return strings.HasPrefix(filepath.Clean(got), fr.t.root+"/")
@@ -930,6 +973,7 @@ func curatedSeqs(t *tree, S, L func(string) fsReq, nextK func() int) [][]fsReq {
 		{L("../sibling/decoy.gr")}, {S("sub/inner.gr")}, {L("sub/inner.gr")}, {S("sub/new")}, {L("notes.txt")}, {S("notes.txt")},
 		{S(filepath.Join(t.root, "abs.gr"))}, {L(filepath.Join(t.root, "outside.gr"))},
 		{S("..")}, {S(".")}, {S("~")}, {S(" ")}, {S("\\")}, {S("\xff")}, {S("a\x00b")}, {S("a\x00")}, {S("x.gr\x00")}, {S(".gr.gr")}, {S("..gr")},
+		{S("\u0161")}, {S("\u0161.gr"), L("\u0161")}, {S("ab\u0161")}, {S("\u0130")}, {S("\u4e41")}, {S("\U00010061.gr")}, {S("\u012fx")}, {S("\u012e\u012e\u012fx")}, {L("\u0161")},
 		{S("a.gr.gr")}, {S("grol.png")}, {L("grol.png.gr")}, {S("Z7_")}, {S("Z7_.gr")}, {S(strings.Repeat("n", 252))}, {S(strings.Repeat("n", 253))},
 	}
 }
@@ -1130,7 +1174,7 @@ func runC17(c *Ctx) {
 	// ---- SAN
 	s := newSanSweep(c)
 	// corpus first: the names of main_test.txtar and classic escapes
-	for _, n := range []string{"/tmp/foo.gr", "./fib_50.gr", "fib_50", "fib_50.gr", "../x", "..", ".", "", ".gr", ".gr.gr", "a.gr.gr", "a.grx",
+	for _, n := range []string{"\u0161", "\u0161.gr", "ab\u0161", "\u0130", "\u4e41", "\U00010061.gr", "\u012f\u012e.gr", "/tmp/foo.gr", "./fib_50.gr", "fib_50", "fib_50.gr", "../x", "..", ".", "", ".gr", ".gr.gr", "a.gr.gr", "a.grx",
 		"a\x00.gr", "a.gr\x00", "a/../b.gr", "a\\b.gr", "~/.gr", " .gr", "a .gr", "\xc3\xa9.gr", "\xff.gr", "A_z09.gr", "gr", ".g", "r.gr/", "GROL.PNG", "grol.png", "x.GR",
 		strings.Repeat("a", 300), strings.Repeat("a", 300) + ".gr", "con.gr", "a\n.gr", "a\t", "-", "--.gr", "a-b"} {
 		s.one(true, n, modeModel)
@@ -1142,6 +1186,32 @@ func runC17(c *Ctx) {
 			s.one(true, n, modeModel)
 		}
 	}
+	// valid multi-byte UTF-8 runes for every low code-point byte: alone, with suffix, embedded, doubled
+	for _, r := range utf8Runes() {
+		for _, n := range []string{r, r + ext, "g" + r + "r", "g" + r + "r" + ext, r + r + ext} {
+			s.one(true, n, modeModel)
+		}
+	}
+	c.Count("san-utf8-runes")
+	// every sequence of up to 3 symbols over a mixed ASCII / multi-byte alphabet
+	for l := 1; l <= 3; l++ {
+		enumerateTokens(utf8Tokens, l, func(n string) {
+			s.one(true, n, modeModel)
+			s.one(true, n+ext, modeModel)
+		})
+	}
+	c.Count("san-utf8-exhaustive")
+	// one offending symbol at every position of otherwise plain names of several lengths
+	for _, ln := range []int{7, 8, 9, 16, 17, 33, 64, 65, 100, 257} {
+		for _, bad := range []string{"/", ".", "\x00", "\xff", " ", "\u0161", "\u4e61", "\U00010061"} {
+			for pos := 0; pos <= ln; pos++ {
+				n := strings.Repeat("a", pos) + bad + strings.Repeat("b", ln-pos)
+				s.one(true, n, modeModel)
+				s.one(true, n+ext, modeModel)
+			}
+		}
+	}
+	c.Count("san-position-sweep")
 	for l := 0; l <= maxLen; l++ {
 		if l <= modelLen { // spelled-out correspondence cases
 			enumerate(l, func(b []byte) {
@@ -1170,7 +1240,7 @@ func runC17(c *Ctx) {
 	if c.Thorough() {
 		nRand = 150000
 	}
-	pieces := []string{".gr", ".g", "gr", ".", "..", "/", "\\", "\x00", " ", "~", "\xff", "\xc3\xa9", "_", "a", "Z", "0", "9", "z", "A", "@", "[", "`", "{", ":", "/.gr", ".gr.gr", ".GR", "-", "\n"}
+	pieces := []string{"\u0161", "\u4e41", "\U00010061", "\u0130", "\u012f", ".gr", ".g", "gr", ".", "..", "/", "\\", "\x00", " ", "~", "\xff", "\xc3\xa9", "_", "a", "Z", "0", "9", "z", "A", "@", "[", "`", "{", ":", "/.gr", ".gr.gr", ".GR", "-", "\n"}
 	for i := 0; i < nRand; i++ {
 		var b strings.Builder
 		k := 1 + c.R.Intn(7)
@@ -1206,7 +1276,7 @@ func runC17(c *Ctx) {
 		add := func(n string) {
 			b.add(hxs(n), b01(allowedName(eo, n)))
 		}
-		for _, n := range []string{"grol.png", ".gr", "a.gr", "A_z09.gr", "grol.png.gr", "grol.pn", "x/grol.png", "./.gr", "a.grx", "gr", "a.gr.gr", "Z7_.gr"} {
+		for _, n := range []string{"\u0161.gr", "\u4e41.gr", "\U00010061.gr", "a\u0130.gr", "grol.png", ".gr", "a.gr", "A_z09.gr", "grol.png.gr", "grol.pn", "x/grol.png", "./.gr", "a.grx", "gr", "a.gr.gr", "Z7_.gr"} {
 			add(n)
 		}
 		for l := 1; l <= 3; l++ {
@@ -1278,6 +1348,16 @@ func runC17(c *Ctx) {
 			enumerate(l, func(b []byte) {
 				for _, n := range []string{string(b), string(b) + ext} {
 					if !dead && fail(fr.do([]fsReq{S(n), L(n)}, true)) {
+						dead = true
+					}
+				}
+			})
+		}
+		// the mixed ASCII / multi-byte symbols: every sequence of up to 2 symbols, with and without suffix
+		for l := 1; l <= 2 && !dead; l++ {
+			enumerateTokens(utf8Tokens, l, func(n string) {
+				for _, nm := range []string{n, n + ext} {
+					if !dead && fail(fr.do([]fsReq{S(nm), L(nm)}, true)) {
 						dead = true
 					}
 				}
